@@ -3,7 +3,7 @@ CONSTANTS Variant = "ok"
  MCN = 4
  MCV = 1
  MCByz = 0
- TypesId = "dr"
+ TypesId = "d"
  Sequential = TRUE
  Focus = {1}
  MaxActive = 2
